@@ -293,6 +293,7 @@ func streamBytes(seed uint64, idx int) caseT {
 // bytes, and large inputs (judged on the implementation alone: "Q").
 func streamHostile(seed uint64, idx int) caseT {
 	g := genFor(seed, "hostile", idx)
+	g.single = true
 	doc := topDoc(g)
 	switch g.r.intn(10) {
 	case 0: // deep nesting
